@@ -512,7 +512,8 @@ def check_c08(cfg, world, tr, acc):
         V('C08', 'final-cash', 'final cash %r, the trading rules give %r' % (p.cash, float(ref.cash)))
     got = {a: d['quantity'] for a, d in p.portfolio_to_dict().items()}
     want = {a: q for a, q in ref.held.items() if q}
-    if got != want:
+    # (the library keeps quantities as floats: beyond 2**53 a whole number is compared as the float it is stored as)
+    if got != want and {a: float(q) for a, q in got.items()} != {a: float(q) for a, q in want.items()}:
         V('C08', 'final-holdings', 'final holdings %s, the trading rules give %s' % (got, want))
     caller_weights_untouched('C08', cfg, tr)
     ec = equity_curve_of(sess, acc)
@@ -1225,6 +1226,7 @@ def gen_cfg(rng, alpha_kinds=('fixed',), universe_kinds=('static',), max_days=25
         # a second, lower-priority data source carrying some of the same tickers at other prices, over the whole
         # period; in the first source one of those tickers only starts part-way through the session, so the handler
         # answers it from the second source first and from the first source afterwards
+        mk.pop('clone', None)          # (one of the tickers becomes late-starting below: no duplicated series here)
         m2 = json.loads(json.dumps(mk))
         m2['seed'] = mk['seed'] + 31337
         m2['assets'] = sorted(rng.sample(syms, rng.randint(1, len(syms))))
